@@ -77,10 +77,14 @@ SomeUnreserved == {
 
 BoolWords == { <<"t","r","u","e">>, <<"f","a","l","s","e">> }
 
-\* mixed-case keywords, the BOOLEAN words, plain multi-letter names
+\* mixed-case keywords, the BOOLEAN words, plain multi-letter names, names / texts with backslashes
 ExtraNames == {
     <<"S","e","l","e","c","t">>, <<"F","R","O","M">>, <<"t","r","u","e">>, <<"f","a","l","s","e">>,
-    <<"T","r","u","e">>, <<"n","U","l","l">>, <<"a","_","0">>, <<"z","z","_","t","o","p","9">>
+    <<"T","r","u","e">>, <<"n","U","l","l">>, <<"a","_","0">>, <<"z","z","_","t","o","p","9">>,
+    \* the backslash is an ordinary character inside "..." and '...' (CQL has no backslash escapes):
+    \* alone, doubled, before / after each quote character, between letters, at the end
+    <<"\\">>, <<"\\","\\">>, <<"\\","'">>, <<"'","\\">>, <<"\\","\"">>, <<"\"","\\">>,
+    <<"a","\\","z">>, <<"a","\\","'","z">>, <<"a","\\">>, <<"\\","n">>
   }
 
 ClassOf(c) ==
@@ -243,5 +247,6 @@ AgreesWithLex   == done /\ form \in Forms => toks = Lex(Input)
 Witness_EscapedQuote  == ~(done /\ form = "quoted" /\ n = <<"a", "\"">> /\ toks = Ident(n))
 Witness_ReservedBare  == ~(done /\ form = "raw" /\ n = <<"s","e","l","e","c","t">> /\ toks = <<Tok("keyword", n)>>)
 Witness_NewlineSplits == ~(done /\ form = "raw" /\ n = <<"a", "\n">> /\ toks = Ident(<<"a">>))
+Witness_Backslash     == ~(done /\ form = "string" /\ n = <<"\\", "'">> /\ toks = <<Tok("str", n)>>)
 Witness_BareKept      == ~(done /\ form = "maybe" /\ n = <<"a", "z">> /\ Input = n /\ toks = Ident(n))
 =============================================================================
